@@ -655,6 +655,11 @@ func (j *JL) Apply(l Label) bool {
 		if !w.Inf.Pods.Deliver() {
 			return false
 		}
+	case "PodWatchBreak": // the Pod watch breaks: undelivered Pod events are lost, the informer lists again (tombstones for vanished Pods)
+		if w.Inf.Pods.Pending() == 0 {
+			return false
+		}
+		w.Inf.Pods.Resync(w.API.List("pods"))
 	case "TimerFire":
 		if _, ok := q.Timers[k]; !ok {
 			return false
@@ -747,6 +752,9 @@ func (j *JL) Enabled(rng *rand.Rand, maxTime int, faultP float64, applied bool) 
 	}
 	if w.Inf.Pods.Pending() > 0 {
 		add(Label{A: "DeliverPod"}, 3)
+		if rng.Intn(12) == 0 {
+			add(Label{A: "PodWatchBreak"}, 1)
+		}
 	}
 	if q.Retries[k] {
 		add(Label{A: "RetryFire"}, 2)
